@@ -35,4 +35,9 @@ def run(tier):
                      f"{len(iargs)} combinators: left operand plain / produced by an optimised-away node / selected from a bundle / wire-merged (same or split colours) / integer, right "
                      "operand signal / integer, red / green, arithmetic / decider with condition rows: every signal operand reads exactly the colour(s) it is delivered on "
                      "(contract evaluated on the real LayoutPlanner._inject_wire_colors_into_placements)")
+    from contracts import c13
+    vargs = c13.inline_value_arg_sets()
+    cr.bounded_check(run_contract_enum, "inline-value-box", c13.inline_value_c, vargs,
+                     f"{len(vargs)} usage entries (constant / arithmetic / no producer / unknown reference x materialised or not x literal values): an operand becomes an integer only for an "
+                     "unmaterialised constant, and then its literal (contract evaluated on the real SignalAnalyzer.inline_value / can_inline_constant)")
     return cr.finish()
